@@ -20,7 +20,7 @@ Proof.
   unfold bu_validate. intros H Init HI.
   destruct (ig_check_sound _ _ _ _ _ _ _ _ H Init HI) as (A & B & C).
   split; auto. split; auto. intros sm I. apply C.
-  rewrite map_map. cbn [fst]. rewrite map_id. exact I.
+  rewrite map_map. cbn [fst]. rewrite map_id. apply in_or_app. left. exact I.
 Qed.
 
 (* summaries of the bottom-up phase have the precondition top: they hold whatever the inputs *)
